@@ -202,7 +202,7 @@ class G:
         iterations are called later, after further calls of the same procedure; parameters shadow globals."""
         r = self.rng
         gi = self.vars_of(env, "int")
-        k = r.randrange(9)
+        k = r.randrange(11)
         f, g = self.fresh("sf"), self.fresh("sg")
         n = S(self.fresh("n")) if not gi or r.random() < 0.5 else S(r.choice(gi))      # a parameter that may shadow a global
         acc, x = S(self.fresh("acc")), S(self.fresh("x"))
@@ -262,6 +262,21 @@ class G:
             forms.append(Proc(f, [n.name, acc.name], None, [], [[S("if"), [S("<="), n, 0], acc, Call(S(g), [[S("-"), n, 1], [S("cons"), [S("lambda"), [], [S("*"), n, 10]], acc]])]]))
             forms.append(Proc(g, [n.name, acc.name], None, [], [[S("if"), [S("<="), n, 0], acc, Call(S(f), [[S("-"), n, 1], [S("cons"), [S("lambda"), [], [S("+"), n, 1]], acc]])]]))
             forms.append([S("map"), [S("lambda"), [S("t")], [S("t")]], Call(S(f), [a1 + 1, q([])])])
+        elif k == 9:
+            # internal definitions of a parameterless procedure named like variables of the enclosing scope: the outer ones stay untouched
+            gv = r.choice(gi) if gi else self.fresh("gs")
+            if not gi:
+                forms.append([S("define"), S(gv), a1])
+            forms.append(Proc(f, [], None, [[S("define"), S(gv), [S("+"), 100, a2]], [S("define"), [S("inner")], [S("*"), S(gv), 2]]], [[S("list"), S(gv), [S("inner")]]]))
+            forms += [Call(S(f), []), S(gv), Call(S(f), []), S(gv)]
+        elif k == 10:
+            # the same for a procedure with only a rest parameter called without arguments, and for a thunk created inside another procedure
+            gv = r.choice(gi) if gi else self.fresh("gs")
+            if not gi:
+                forms.append([S("define"), S(gv), a1])
+            forms.append(Proc(f, [n.name], None, [], [[[S("lambda"), [], [S("define"), S(n.name), [S("+"), n, 50]], n]], [S("+"), n, 1]]))
+            forms.append(Proc(g, [], gv, [], [[S("cons"), a3, S(gv)]]))
+            forms += [Call(S(f), [a2]), Call(S(g), []), S(gv), Call(S(g), [1, 2]), S(gv)]
         else:
             # non-tail recursion whose frame variables are read after the inner call returns
             forms.append(Proc(f, [n.name], "r", [], [[S("if"), [S("<="), n, 0], [S("apply"), S("+"), 0, S("r")],
@@ -326,9 +341,9 @@ def render(x, sp, rng=None):
     if isinstance(x, Call):
         f = render(x.f, sp); args = [render(a, sp) for a in x.args]
         if sp == "apply":
-            if args and (len(show(f)) + len(args)) % 2:
-                return [S("apply"), f, args[0], [S("list")] + args[1:]]
-            return [S("apply"), f, [S("list")] + args]
+            # 0-3 arguments written before the final list (deterministic per call site)
+            k = min(len(args), (len(show(f)) + len(args)) % 4)
+            return [S("apply"), f] + args[:k] + [[S("list")] + args[k:]]
         return [f] + args
     if isinstance(x, Proc):
         body = [render(d, sp) for d in x.defs] + [render(b, sp) for b in x.body]
